@@ -72,6 +72,15 @@ def run_case(case):
             world.add_cell_component("mark", mark)
     else:
         world.add_cell_component("mark", mark)
+    used = int(case.get("used") or 0)
+    if used:
+        # the grid's other services are used first (neighbourhood queries around the origin / the far corner / the middle cell):
+        # asking for neighbours does not change what the grid accepts as a cell address
+        centre = {1: (0, 0, 0), 2: (ew - 1, eh - 1, ed - 1), 3: (ew // 2, eh // 2, ed // 2)}[used]
+        for r in (1, 0):
+            world.get_moore_neighbours(centre, r)
+            world.get_neumann_neighbours(centre, r, True)
+            world.get_neighbours(centre, r, mode="neumann", ret_type=tuple)
     pos_col = list(world.cells["pos"])
     seen = {}
     kind = case["kind"]
@@ -148,7 +157,7 @@ def run_case(case):
     if other is not None:
         last = tuple(max(e, 1) - 1 for e in oshape)
         check(tuple(other.get_cell(*last)["pos"]) == last, "get-cell-wrong-row", f"{case}: companion world (after the lookups): get_cell{last} returned another cell")
-    labels = (["wrap_env"] if case.get("wrap") else []) + (["model-completed-then-used"] if case.get("done") is not None else []) + (["second-world-alive"] if other is not None else []) + [f"zero-axes-{''.join('0' if e == 0 else 'n' for e in (w, h, d))}", "cubic" if len({ew, eh, ed}) == 1 else "non-cubic", kind]
+    labels = (["wrap_env"] if case.get("wrap") else []) + (["model-completed-then-used"] if case.get("done") is not None else []) + (["second-world-alive"] if other is not None else []) + (["neighbourhoods-queried-first"] if used else []) + [f"zero-axes-{''.join('0' if e == 0 else 'n' for e in (w, h, d))}", "cubic" if len({ew, eh, ed}) == 1 else "non-cubic", kind]
     return {"nontrivial": ncells >= 2, "labels": labels}
 
 
@@ -158,6 +167,7 @@ def strategy(tier):
     line = st.builds(lambda w, wr: {"kind": "line", "w": w, "wrap": wr}, st.integers(1, 60), st.booleans())
     grid = st.builds(lambda w, h, wr: {"kind": "grid", "w": w, "h": h, "wrap": wr}, st.integers(1, 14), st.integers(1, 12), st.booleans())
     plain = wone_of(disc, disc, disc, line, grid)
+    plain = st.builds(lambda c, u: dict(c, used=u) if u else c, plain, st.sampled_from([0, 0, 1, 2, 3]))
     return with_done(wone_of(plain, st.builds(lambda a, b: dict(a, later=b), plain, plain)))
 
 
@@ -167,6 +177,8 @@ def exhaustive(tier):
     for wrap in (False, True):
         for w, h, d in itertools.product(range(n + 1), repeat=3):
             yield {"kind": "discrete", "w": w, "h": h, "d": d, "wrap": wrap}
+            if wrap:
+                yield {"kind": "discrete", "w": w, "h": h, "d": d, "wrap": wrap, "used": 1 + (w + h + d) % 3}
             if not wrap:
                 yield {"kind": "discrete", "w": w, "h": h, "d": d, "wrap": wrap, "later": {"kind": "discrete", "w": h + 2, "h": d + 1, "d": w + 1}}
         for w in range(1, m + 1):
